@@ -82,6 +82,8 @@ C17_Clause(e) ==
   ELSE IF e.eqab /\ e.ka # e.kb THEN "equal-but-different-verdicts"
   ELSE IF e.eqab /\ ~SameSchemaDoc(e.ja, e.jb) THEN "equal-but-different-json"
   ELSE "ok"
+(* serialize_json(Array(a), definitions = {d: b}) refers to d for the items exactly when b == a *)
+C17s_Clause(e) == IF e.subst = e.eqba THEN "ok" ELSE "definition-substituted-without-equality"
 (* reflexivity / independently built copies *)
 C17c_Clause(e) == IF e.self /\ e.copyab /\ e.copyba THEN "ok" ELSE "copy-not-equal"
 
